@@ -104,6 +104,8 @@ def _inline_root(bodies, INLINE_ROOT, prefix, rounds):
                     continue
                 if len(t["args"]) != callee["arg_count"] or "unwind" not in t and "unwind_k" not in t:
                     continue
+                if callee["locals"][0]["ty"] == "bool":
+                    continue  # predicates stay calls: the rules treat a bool-valued wrapper of a test as that test (wrappers_of)
                 # recursion guard: the callee must not call itself or the root
                 if any(b2["term"].get("k") == "call" and isinstance(b2["term"].get("func"), dict) and (b2["term"]["func"].get("res") or b2["term"]["func"].get("fn")) in (cn, INLINE_ROOT)
                        for b2 in callee["blocks"]):
